@@ -653,6 +653,15 @@ func ruleExpiryRemoves(c *Ctx, rule string) {
 		c.Anchor(rule, "RemoveChannelBind")
 		n := 0
 		bad := ""
+		relMemo := w.mayContain(func(in ssa.Instruction) bool {
+			ci, ok := in.(ssa.CallInstruction)
+			if !ok {
+				return false
+			}
+			lo := w.lockOpOf(ci.Common())
+			return lo != nil && lo.class == "allocation.Allocation.channelBindingsLock" && (lo.op == "Unlock" || lo.op == "RUnlock")
+		})
+		releasesTbl := func(h *ssa.Function) bool { return h != nil && w.IsMod[h] && len(h.Blocks) > 0 && relMemo(h) }
 		w.eachInstr(fn, func(in ssa.Instruction) {
 			st, ok := in.(*ssa.Store)
 			if !ok {
@@ -663,11 +672,17 @@ func ruleExpiryRemoves(c *Ctx, rule string) {
 				return
 			}
 			n++
-			found := false
+			found, stale := false, false
 			for _, f := range w.factsAt(st) {
 				if f.Op == "==" && f.Truth {
 					for _, pair := range [][2]ssa.Value{{f.X, f.Y}, {f.Y, f.X}} {
-						if _, fl, isL := fieldLoad(pair[0]); isL && fl.Name() == "Number" && w.sameKey(pair[1], fn.Params[1]) {
+						if base, fl, isL := fieldLoad(pair[0]); isL && fl.Name() == "Number" && w.sameKey(pair[1], fn.Params[1]) {
+							// an observation made inside an accessor that takes and releases the
+							// table's lock itself is stale by the time the slice is rewritten
+							if site := w.siteOfValue(pair[0], base); site != nil && releasesTbl(site.Call.StaticCallee()) {
+								stale = true
+								continue
+							}
 							found = true
 						}
 					}
@@ -675,6 +690,9 @@ func ruleExpiryRemoves(c *Ctx, rule string) {
 			}
 			if !found {
 				bad = "channelBindings is rewritten at " + w.instrPos(st) + " without the test element.Number == number"
+				if stale {
+					bad += " made under the lock hold that covers the rewrite (the element was looked up in an earlier critical section: a ChannelBind that refreshes the binding in between is acknowledged and then lost)"
+				}
 			}
 		})
 		if n > 0 && bad == "" {
